@@ -49,7 +49,7 @@ TECHNIQUE = ("bounded-exhaustive enumeration of MapSpec pipelines x storage x lo
              "coordinate value")
 RULE = ("G-MAP (vmc/gen_map.py quick generator: roots {x[i]; x[i],y[i]; x[i],y[j]; x[i,j]; x[i,j],y[j]; x[i],n}, distinct string elements, "
         "1-D roots as lists). quick: every 1-function pipeline x {dict+persist, file_array} x load_intermediate {T,F} x ('all' + every "
-        "non-empty subset of the output names), plus file_array x T x 'all' with a mapped 1-D root that also has a default of other values, and (>= 2 roots) with every name in a scope (agreement of the two builders only); every 2-function pipeline whose second function consumes only `a`, or `a` and a new "
+        "non-empty subset of the output names), plus file_array x T x 'all' with a mapped 1-D root that also has a default of other values, (>= 2 roots) with every name in a scope (agreement of the two builders only), and after an earlier run with other input values into the same folder that was loaded once; every 2-function pipeline whose second function consumes only `a`, or `a` and a new "
         "1-D root z zipped with a's first axis (first function: one output, no internal axis other than the zipped one; second: no "
         "internal axis): file_array x {T,F} x ('all' + each single output), dict x {T,F} x 'all'; the two-input ones again with the second function's inputs in the opposite order (z[..], a[..] -> c[..]) (file_array x {T,F} x 'all', dict x T x 'all'). thorough adds: the rest of the full "
         "product for that 2-function sub-bound (file_array: remaining subsets, dict: singles); every other 2-function pipeline of the "
@@ -310,6 +310,14 @@ def run_group(spec, storage, combos, variant=None):  # noqa: C901, PLR0912
                     pipeline.update_scope("s", inputs="*", outputs="*")
                     inputs = {"s." + k: v for k, v in inputs.items()}
                     ish = {"s." + k: v for k, v in ish.items()} if ish else ish
+                if variant == "rerun-same-folder":
+                    # an EARLIER run with other input values into the same folder, loaded once: nothing of it may survive
+                    older = {k: ([str(e) + "-old" for e in v] if isinstance(v, list) else v) for k, v in inputs.items()}
+                    pipeline.map(dict(older), run_folder=folder, internal_shapes=ish, parallel=False, storage=storage)
+                    try:
+                        load_xarray_dataset(run_folder=folder)
+                    except Exception:  # noqa: BLE001, S110  (a failing builder is reported by the normal flow below)
+                        pass
                 results = pipeline.map(dict(inputs), run_folder=folder, internal_shapes=ish, parallel=False, storage=storage)
         except Exception as e:  # noqa: BLE001
             fail = (findings.exc_sig(e, phase="map", **pred), f"map failed on {desc}: {type(e).__name__}: {str(e)[:120]}")
@@ -505,6 +513,8 @@ def run_unit(unit):
                 groups.append(("file_array", [(True, None)], "root-default"))
             if len(spec["roots"]) >= 2:
                 groups.append(("file_array", [(True, None)], "scoped"))
+            if any(len(a) == 1 for a in spec["roots"].values()) and len(spec["funcs"][0]["outs"]) == 1:
+                groups.append(("file_array", [(True, None)], "rerun-same-folder"))
         for storage, combos, variant in groups:
             for case, viol, info in run_group(spec, storage, combos, variant):
                 nt = info["coords"] > 0
